@@ -306,6 +306,9 @@ func (f *Frame) unrollLoop(L *Loop, trip int) {
 		if st.reach.IsFalse() {
 			break
 		}
+		if iter > 0 && f.contract != nil && f.contract.Unroll[L.Ordinal] && !f.c.feasible(st.reach) {
+			break // the back edge is infeasible under the precondition
+		}
 		if iter > trip+1 {
 			panic(unsupported("loop %d of %s did not terminate after %d unrolled iterations", L.Ordinal, f.fn.Name(), iter))
 		}
